@@ -716,6 +716,15 @@ pub fn run_case(case: &Value) -> Value {
                         None => continue,
                     }
                 } else if let Some(sfx) = suffix.take() { script = sfx; si = 0; continue; }
+                else if !after_crash.is_empty() && crash_at.iter().any(|k| !crash_done.contains(k)) {
+                    // the story ended before the crash point was reached: the node crashes now (otherwise the after-crash script,
+                    // which holds the finale, would never run although the case announces one)
+                    let k = *crash_at.iter().find(|k| !crash_done.contains(*k)).unwrap();
+                    crash_done.push(k);
+                    script = after_crash.clone(); si = 0; drain_budget = 0;
+                    events.push(json!({"e": "crash"})); steps.push(json!({"out": []}));
+                    return true;
+                }
                 else { done = true; return false; };
                 let mut ev = ev;
                 if crash_at.contains(&(events.len() as u64)) && !crash_done.contains(&(events.len() as u64)) {
